@@ -43,9 +43,9 @@ TWO different, independent source changes (alternatives, not cumulative) to the 
 1. BREAKS the property above for some input / operation sequence / configuration / crash point,
 2. still lets the whole existing test-suite pass unchanged. The suite command is
 
-       cd {wt} && /venv/bin/python -m pytest -q -p no:cacheprovider -n 8 --continue-on-collection-errors --timeout=900
+       cd {wt} && HYPOTHESIS_STORAGE_DIRECTORY=/tmp/hyp_{id} /venv/bin/python -m pytest -q -p no:cacheprovider -n 8 --continue-on-collection-errors --timeout=900
 
-   On the unchanged tree its last line reads `2096 passed, 1 xfailed, ... 224 errors` (the 224 errors are
+   On the unchanged tree its last line reads `2096 passed, 1 xfailed, ... 112 errors` (the 112 errors are
    pre-existing collection errors of modules that cannot be imported here; they are expected and must stay
    exactly the same; the passed count must stay 2096 with 0 failed),
 3. is REALISTIC: the kind of slip a maintainer could make in a refactoring, optimisation or clean-up
@@ -67,6 +67,10 @@ For each change k in {{1,2}} write into `{wt}/_seed/k/`:
                   statement, not against a golden value copied from the unchanged code,
 * `notes.md`    - 5-10 lines: which clause of the property breaks, what exactly is needed for it to manifest,
                   the last line of the test-suite run with the change applied, and the demo output with and without it.
+
+Do not use `git stash` (stashes are shared between worktrees); use `git diff > file` and `git checkout -- .`.
+Demos must put the current directory first on sys.path (`sys.path.insert(0, os.getcwd())`) so that the worktree's vermouth is imported.
+Two hypothesis-based tests in test_logging.py (test_style_adapter, test_style_type_adapter) are randomly flaky on the unchanged tree; ignore a failure there if it also occurs without your change.
 
 Verify all of this yourself: run the full suite with each change applied (one at a time), run the demo with and
 without. When done, leave the worktree clean (`git checkout -- .`) with only the untracked `_seed/` directory
